@@ -205,7 +205,10 @@ fn process_dir(
                     *quit = true;
                     break;
                 }
-                if matcher_io.should_skip_current_dir() {
+                // With -depth the directory's contents have already been
+                // visited, so -prune has no effect (skipping here would
+                // drop the parent's remaining entries instead).
+                if matcher_io.should_skip_current_dir() && !config.depth_first {
                     it.skip_current_dir();
                 }
             }
